@@ -12,6 +12,12 @@ import numpy as np
 
 _ift = None
 _MatOp = None
+MAX_CHECKS = 2000      # a CG run on our systems needs < 200; beyond this the real code is not terminating
+MAX_APPLIES = 6000
+
+
+class Runaway(Exception):
+    """the real code keeps iterating: reported as error kind 'Runaway' instead of hanging the harness"""
 
 
 def ift():
@@ -35,6 +41,8 @@ def ift():
                 self._check_input(x, mode)
                 v = x.val.asnumpy()
                 self.calls.append((int(mode), v.copy()))
+                if len(self.calls) > MAX_APPLIES:
+                    raise Runaway()
                 if mode == 1:
                     r = self._m @ v
                 elif mode == 2:
@@ -160,6 +168,8 @@ def _recorder(real):
             self.real = real
 
         def _note(self, energy, st):
+            if len(self.rec) > MAX_CHECKS:
+                raise Runaway()
             self.rec.append(dict(pos=energy.position.val.asnumpy().copy(), grad=energy.gradient.val.asnumpy().copy(),
                                  value=float(energy.value), gn=float(energy.gradient_norm), status=int(st),
                                  itcount=int(real._itcount), ccount=int(real._ccount)))
